@@ -17,13 +17,24 @@ use crate::trackers::sort::{
 use crate::trackers::spatio_temporal_constraints::SpatioTemporalConstraints;
 use crate::trackers::tracker_api::TrackerAPI;
 use crate::voting::Voting;
+#[cfg(not(similari_verif))]
 use crossbeam::channel::{Receiver, Sender};
+#[cfg(similari_verif)]
+use crate::verif::crossbeam;
+#[cfg(similari_verif)]
+use crate::verif::crossbeam::channel::{Receiver, Sender};
 use log::warn;
 use rand::Rng;
 use std::collections::HashMap;
 use std::mem;
+#[cfg(not(similari_verif))]
 use std::sync::{Arc, Condvar, Mutex, RwLock, RwLockReadGuard, RwLockWriteGuard};
+#[cfg(similari_verif)]
+use crate::verif::sync::{Arc, Condvar, Mutex, RwLock, RwLockReadGuard, RwLockWriteGuard};
+#[cfg(not(similari_verif))]
 use std::thread::{spawn, JoinHandle};
+#[cfg(similari_verif)]
+use crate::verif::thread::{spawn, JoinHandle};
 
 type VotingSenderChannel = Sender<VotingCommands>;
 type VotingReceiverChannel = Receiver<VotingCommands>;
@@ -80,6 +91,8 @@ fn voting_thread(
                 tracks,
                 monitor,
             } => {
+                #[cfg(similari_verif)]
+                crate::verif::point("vote.begin", scene_id);
                 let candidates_num = tracks.len();
                 let tracks_num = {
                     let store = store.read().expect("Access to store must always succeed");
@@ -99,6 +112,8 @@ fn voting_thread(
                 let mut res = Vec::default();
                 for mut t in tracks {
                     let source = t.get_track_id();
+                    #[cfg(similari_verif)]
+                    crate::verif::point("vote.write", scene_id);
                     let tid = {
                         let mut track_id = track_id.write().unwrap();
                         *track_id += 1;
@@ -138,6 +153,8 @@ fn voting_thread(
 
                     res.push(SortTrack::from(track))
                 }
+                #[cfg(similari_verif)]
+                crate::verif::point("vote.result", scene_id);
                 let res = channel.send((scene_id, res));
                 if let Err(e) = res {
                     warn!("Unable to send results to a caller, likely the caller already closed the channel. Error is: {:?}", e);
@@ -286,6 +303,8 @@ impl BatchSort {
                     tracks,
                 })
                 .expect("Sending voting request to voting thread must not fail");
+            #[cfg(similari_verif)]
+            crate::verif::point("batch.dispatched", *scene_id);
         }
     }
 
